@@ -18,6 +18,10 @@ RULE = (
     "UTC, under TZ in {UTC, Pacific/Kiritimati, America/Los_Angeles}; builder-made root vN, vN+1, vN+2 threshold-signed verify as "
     "a chain. distinct = (builder, corrupted argument, value fingerprint); non-trivial = all."
 )
+RULE_ADDENDUM = (
+    "Additional: default times bracketed by the clock within 2 s (or midnight of the day), also after rejected calls followed by a real pause, and with builders called from several threads; 'about one year' = 363..368 days."
+)
+RULE = RULE + " " + RULE_ADDENDUM
 LIMITS = ["wall-clock windows are generous (only separate UTC from local time and 31-day from 365-day defaults)"]
 ASSUMPTIONS = ["reference schema; harness clock"]
 
